@@ -9,21 +9,21 @@ from . import c04
 ID = "C06"
 RULE = (
     "Graph cases of every family with a drawn fixed-subset mode: wellposed (one anchor) / extra-fixed (several) / all-fixed / "
-    "isolated-fixed (fixed vertices with no incident edge appended) / isolated-free (an unconstrained free vertex => exactly singular system, next to fixed vertices) / only-landmarks-fixed / no-fixed (singular normal equations) / diverging "
+    "isolated-fixed (fixed vertices with no incident edge appended) / refix-history (fixed flags changed between optimize() calls on the same Graph object) / isolated-free (an unconstrained free vertex => exactly singular system, next to fixed vertices) / only-landmarks-fixed / no-fixed (singular normal equations) / diverging "
     "(perturbation up to 3, 3 rad); 1..20 iterations; fix_first_pose in {T,F}. Oracles: (1) every vertex fixed at solve time is unchanged and "
     "finite in every outcome, incl. singular solves; (2) fixed flags: fix_first_pose=True sets exactly vertices[0].fixed, False changes none; "
     "(3) reduced problem: closed-form WLS with fixed coordinates as constants for R^n graphs, the dense reference Gauss-Newton step on the "
     "reduced system for SE(n); (4) marking more vertices fixed / appending isolated fixed vertices keeps the problem solvable (finite, (3) again). "
     "Non-trivial = a fixed vertex that is not the first listed, or a fault case (no-fixed, isolated-free, only-landmarks-fixed, diverging)."
 )
-BUDGET = {"quick": 16 * 250, "thorough": 16 * 8000}
+BUDGET = {"quick": 16 * 800, "thorough": 16 * 8000}
 TOLERANCES = {
     "fixed vertices": "translation and quaternion bitwise; SE2 angle within 4 ulp(pi) per iteration (angle re-wrap)",
     "reduced problem": "as C03 (one step) / C04 (closed form)",
 }
 ASSUMPTIONS = ["reference model trusted after self-test", "singular solves: scipy may return NaN or garbage for the free unknowns; only fixed vertices and flags are judged there"]
 
-MODES = ["wellposed", "extra-fixed", "extra-fixed", "all-fixed", "isolated-fixed", "isolated-fixed", "isolated-free", "only-landmarks-fixed", "no-fixed", "diverging"]
+MODES = ["wellposed", "extra-fixed", "extra-fixed", "refix-history", "refix-history", "all-fixed", "isolated-fixed", "isolated-fixed", "isolated-free", "only-landmarks-fixed", "no-fixed", "diverging"]
 
 
 @S.composite
@@ -64,6 +64,12 @@ def strategy_(g):
             used.add(nid)
             pos = rnd.randint(1, len(verts))
             verts.insert(pos, {"id": nid, "p": p, "fixed": mode == "isolated-fixed", "truth": list(p["v"]), "role": "isolated"})
+    if mode == "refix-history":
+        # flags changed between optimize() calls on the same Graph object: [(vertex index, new flag), ...] per stage
+        stages = []
+        for _ in range(rnd.randint(1, 3)):
+            stages.append({"changes": [[rnd.randrange(len(verts)), rnd.random() < 0.75] for _ in range(rnd.randint(1, 2))], "ff": rnd.random() < 0.4, "k": rnd.choice([1, 1, 2, 3])})
+        case["stages"] = stages
     case["mode"] = mode
     case["iters"] = g.choice([1, 1, 2, 3, 5, 10, 20])
     case["tol"] = g.choice([0.0, 0.0, 1e-6])
@@ -96,6 +102,43 @@ def _fixed_unchanged(ctx, g, before, fixed, iters, what):
     return False
 
 
+def _check_refix_history(case, ctx, S_):
+    """optimize -> change fixed flags -> optimize again on the SAME Graph object: at every stage the fixed vertices stay
+    put and the step taken is the Gauss-Newton step of the system reduced to the *currently* free vertices."""
+    ctx.nontrivial(True)
+    g = GG.build(case)
+    ff = case["fix_first"]
+    before = RG.poses_snapshot(g)
+    fixed = GC.expected_fixed(case, ff)
+    GC.optimize_quiet(g, tol=0.0, max_iter=min(case["iters"], 3), fix_first_pose=ff, verbose=False)
+    if _fixed_unchanged(ctx, g, before, fixed, 3, "refix-history stage 0"):
+        return
+    for si, st in enumerate(case["stages"]):
+        if not GC.all_finite(g):
+            ctx.event("refix:nonfinite-skipped")
+            return
+        for idx, flag in st["changes"]:
+            g._vertices[idx % len(g._vertices)].fixed = bool(flag)
+        flags = [bool(v.fixed) for v in g._vertices]
+        if st["ff"]:
+            flags[0] = True
+        # keep the stage well-posed: some pose of the base type must be fixed
+        if not any(f and vd["role"] == "pose" for f, vd in zip(flags, case["verts"])):
+            ctx.event("refix:stage-not-anchored-skipped")
+            return
+        ctx.event("refix:stage")
+        snap = RG.poses_snapshot(g)
+        if st["k"] == 1:
+            if GC.gn_step_oracle(ctx, case, g, st["ff"], S_, check_report=True, fixed=flags):
+                return
+        else:
+            GC.optimize_quiet(g, tol=0.0, max_iter=st["k"], fix_first_pose=st["ff"], verbose=False)
+            if [bool(v.fixed) for v in g._vertices] != flags:
+                return ctx.fail("fixed-flags", "stage %d: flags %r expected %r" % (si + 1, [bool(v.fixed) for v in g._vertices], flags))
+        if _fixed_unchanged(ctx, g, snap, flags, st["k"], "refix-history stage %d" % (si + 1)):
+            return
+
+
 def check(case, ctx):
     GG.classify(case, ctx)
     mode = case["mode"]
@@ -108,6 +151,9 @@ def check(case, ctx):
     ctx.nontrivial(any(f for f in fixed[1:]) or fault)
     S_ = GG.S_of(case)
     iters = case["iters"]
+
+    if mode == "refix-history":
+        return _check_refix_history(case, ctx, S_)
 
     # ---- the run under test: k iterations
     g = GG.build(case)
